@@ -341,7 +341,16 @@ def apply_op(obj, ret):
                 value = {"zero": 0.0, "negative": -cur, "nan": float("nan")}[b]
                 setattr(obj, p, value)
             elif op == "centroid":
-                setattr(obj, args[1], np.array(TARGETS[args[0]]))
+                if args[0] == "nudge":
+                    # a move that is small only in numpy's default sense (rtol 1e-5, atol 1e-8): refreshes must not be gated by isclose
+                    try:
+                        cur = np.asarray(getattr(obj, args[1]), dtype=float)
+                    except Exception:
+                        cur = np.zeros(3)          # classes without a centroid: the assignment below raises as for any target
+                    info["target"] = cur + 1e-6 * np.abs(cur) * np.array([1.0, -1.0, 1.0]) + np.array([5e-9, 5e-9, -5e-9])
+                else:
+                    info["target"] = np.array(TARGETS[args[0]])
+                setattr(obj, args[1], info["target"].copy())
             elif op == "radius":
                 obj.radius = float(obj.radius) * float(F(args[0][0], args[0][1]))
             elif op == "coreset":
@@ -467,7 +476,7 @@ def run_history(job):
             if float(obj.radius) != info["radius_before"]:
                 bad("radius", "resizing the core changed the rounding radius", step)
         elif ret["op"] == "centroid":
-            tgt = np.array(TARGETS[ret["args"][0]])
+            tgt = np.asarray(info["target"], dtype=float)
             if curved:
                 expect = np.concatenate([tgt, before_vertices[3:]])
             else:
